@@ -699,6 +699,16 @@ var pinned = []struct {
 	{true, " :", nil, []string{"a: :b"}, "$v0"},
 	{true, " :", nil, []string{" :a"}, "$v0"},
 	{true, " :", nil, []string{"a ", ":b"}, "$v0\"$@\"$v1"},
+	// one delimiter straddling two adjacent unquoted expansions / list elements
+	{true, " :", nil, []string{"a ", ":b"}, "$v0$v1"},
+	{true, " :", nil, []string{"a  ", " : b"}, "$v0$v1"},
+	{true, " :", nil, []string{"a ", ":b"}, "$v0$(printf '%s' \"$v1\")"},
+	{true, " :", []string{"a ", ":b", " :c"}, nil, "$*"},
+	{true, ": ", []string{"a ", ":b"}, nil, "${arr[@]}"},
+	// empty IFS: empty elements of an unquoted list vanish, elements are not split
+	{true, "", []string{"x", "", "z"}, nil, "$*"},
+	{true, "", []string{"x", "", "", "y z"}, nil, "a$@"},
+	{true, "", []string{"", "x", ""}, nil, "${arr[*]}"},
 	{true, ":", []string{"a", "", "b"}, nil, "$@"},
 	{true, ":", []string{"a", "", "b"}, nil, "$*"},
 	{true, ": ", []string{"a", "", "b"}, nil, "$@"},
@@ -745,6 +755,7 @@ var pinnedScripts = []struct{ script, class string }{
 	{`read -a a <<< ""; p "${a[@]}"`, ""},
 	// an empty brace alternative is no word at all (syntax fix 8ee2f44; an empty literal would be an empty field)
 	{`x=' b'; p {,a} {,a}$x x{,a} {a,}{,b} ""{,a} {,}`, ""},
+	{`IFS=:; set -- 1 2; a="x:y z"; p $a "$*"; IFS=' '; p $a "$*"; unset IFS; p $a "$*"; IFS=; p $a "$*" $*`, ""},
 	// one shell, IFS changing between expansions
 	{`IFS=:; a="x:y z"; p $a; unset IFS; p $a; IFS=; p $a; set -- 1 2; IFS=,; p "$*"; unset IFS; p "$*"`, ""},
 }
